@@ -1754,6 +1754,13 @@ bool build_pool() {
             std::memcpy(b->reserve_space(o.bytes.size()), o.bytes.data(), o.bytes.size());
             b->commit();
         }
+        // every other source buffer also holds one complete but *uncommitted* object behind its
+        // committed ones: add_buffer() is documented to add the committed contents only
+        if (g % 2 == 1) {
+            const auto& o = p->objs[static_cast<size_t>(r.below(p->objs.size()))];
+            std::memcpy(b->reserve_space(o.bytes.size()), o.bytes.data(), o.bytes.size());
+            vh::count("add_buffer_sources_with_uncommitted_tail");
+        }
         p->groups.push_back(std::move(idx));
         p->group_bufs.push_back(std::move(b));
     }
